@@ -3,6 +3,7 @@ package props
 import (
 	"bytes"
 	"encoding/json"
+	"errors"
 	"fmt"
 	"log"
 	"os"
@@ -11,6 +12,7 @@ import (
 	"runtime"
 	"strings"
 	"sync"
+	"sync/atomic"
 	"testing"
 	"time"
 
@@ -49,6 +51,12 @@ type c20Case struct {
 }
 
 func init() { register("c20", checkC20) }
+
+var (
+	c20DirOnce sync.Once
+	c20Dir     string
+	c20FileSeq atomic.Int64
+)
 
 // run executes the operation on inputs private to the call and returns a canonical result.
 func (o c20Op) run() (res string) {
@@ -102,6 +110,18 @@ func (o c20Op) run() (res string) {
 			fw := &faultWriter{k: o.FailAt - 1, mode: o.FailMode}
 			err = writeFormat(o.Format, s, fw)
 			return fmt.Sprintf("%v|%s|%s", err != nil, hashOf(fw.buf.Bytes()), hashOf([]byte(canon(s))))
+		}
+		if strings.HasPrefix(o.Format, "file:") {
+			// the file-level helper, every call to a file of its own in one directory shared by all calls of the process
+			c20DirOnce.Do(func() { c20Dir, _ = os.MkdirTemp("", "c20files") })
+			p := filepath.Join(c20Dir, fmt.Sprintf("out-%d.%s", c20FileSeq.Add(1), strings.TrimPrefix(o.Format, "file:")))
+			err = s.Write(p)
+			b, _ := os.ReadFile(p)
+			_ = os.Remove(p)
+			if err != nil {
+				err = errors.New(strings.ReplaceAll(err.Error(), p, "<path>"))
+			}
+			return fmt.Sprintf("%v|%s|%s", err, hashOf(b), hashOf([]byte(canon(s))))
 		}
 		if strings.HasPrefix(o.Format, "ttml-indent:") {
 			// a per-call option: must not leak into any other call
@@ -424,6 +444,10 @@ func genC20Op(t *rapid.T) c20Op {
 	case 1:
 		g := genGLRaw(t)
 		o := c20Op{Kind: "write", Format: rapid.SampledFrom(writerFormats).Draw(t, "writer"), Spec: &g}
+		if rapid.IntRange(0, 3).Draw(t, "tofile") == 0 {
+			o.Format = "file:" + rapid.SampledFrom([]string{"srt", "vtt", "ssa", "ass", "ttml", "stl", "SRT"}).Draw(t, "fileext")
+			return o
+		}
 		if rapid.IntRange(0, 3).Draw(t, "failingdest") == 0 {
 			// the destination of this call fails: no other call may notice
 			o.FailAt, o.FailMode = rapid.IntRange(1, 400).Draw(t, "failat"), rapid.IntRange(0, 2).Draw(t, "failmode")
